@@ -125,8 +125,31 @@ func sourceForTable(query *sql.Query, opts *Opts) (core.RowSource, error) {
 			}
 		}
 
+		// The group operator resolves the query's fields against the fields that
+		// it reads, i.e. against result. A field that is named in an expression
+		// which as a whole prints like another table field (and therefore is
+		// read from that field's column) has just been pruned; its name would
+		// then be unknown and be taken for SUM(name), which reads nothing. Keep
+		// the fields as resolved against the whole table.
+		query.Fields = &resolvedFields{fields, query.Fields}
+
 		return result, nil
 	})
+}
+
+// resolvedFields are a query's fields as resolved against all fields of its
+// table.
+type resolvedFields struct {
+	fields core.Fields
+	orig   core.FieldSource
+}
+
+func (rf *resolvedFields) Get(known core.Fields) (core.Fields, error) {
+	return rf.fields, nil
+}
+
+func (rf *resolvedFields) String() string {
+	return fmt.Sprint(rf.orig)
 }
 
 func asOfUntilFor(query *sql.Query, opts *Opts, source core.RowSource, now time.Time) (time.Time, bool, time.Time, bool) {
